@@ -430,6 +430,14 @@ def known_findings():
     return out
 
 
+def out_dir(repo):
+    """evidence and replay files of a run against /repo go to /verif; a run against any other tree (--repo: scratch copies
+    used to try the checks on changed code) must not touch the committed evidence"""
+    if os.path.realpath(repo) == os.path.realpath('/repo'):
+        return VERIF
+    return os.environ.get('VP_ALT_OUT', '/tmp/vp-alt-out')
+
+
 def source_line(repo, f, line):
     try:
         return open(os.path.join(repo, f)).read().splitlines()[line - 1].strip()
@@ -465,7 +473,7 @@ def main(argv):
         return 2
     P = props[pid]
     scratch = tempfile.mkdtemp(prefix='vpcheck-%s-' % pid)
-    ev_path = os.path.join(VERIF, 'evidence', pid + '.json')
+    ev_path = os.path.join(out_dir(repo), 'evidence', pid + '.json')
     os.makedirs(os.path.dirname(ev_path), exist_ok=True)
     try:
         if os.path.exists(ev_path):
@@ -668,7 +676,7 @@ def _main(pid, P, tier, repo, seed, scratch, ev_path, t0):
     # report
     kf = known_findings()
     nviol = 0
-    os.makedirs(os.path.join(VERIF, 'replay'), exist_ok=True)
+    os.makedirs(os.path.join(out_dir(repo), 'replay'), exist_ok=True)
     seen = set()
     for (f, ur) in violations:
         key = (f['clause'], f['kind'])
@@ -684,7 +692,7 @@ def _main(pid, P, tier, repo, seed, scratch, ev_path, t0):
             print('KNOWN-FINDING: property=%s %s' % (pid, matched.get('what', matched['raw'])))
             continue
         nviol += 1
-        rp = os.path.join(VERIF, 'replay', '%s-%s.json' % (pid, re.sub(r'[^A-Za-z0-9_.\-]', '_', f['clause'])))
+        rp = os.path.join(out_dir(repo), 'replay', '%s-%s.json' % (pid, re.sub(r'[^A-Za-z0-9_.\-]', '_', f['clause'])))
         import vpreplay
         rep = vpreplay.make_replay(pid, f, repo, src, ur)
         with open(rp, 'w') as fh:
